@@ -82,4 +82,31 @@ PROPS = {
         "trusted_base": COMMON_TB + ["handler skeletons and rotation in the reference storage are hand-modelled; tied by this stream"],
         "assumptions": [],
     },
+    "C18": {
+        "proof_module": "OidcModel.Proofs.C18",
+        "theorems": ["C18.c18_redirect_partial", "C18.c18_lossy_witness", "C18.c18_lossy_accepts", "C18.c18_redirect_registered", "C18.c18_hint_rules",
+                     "C18.c18_session_identity", "C18.c18_rejected", "C18.c18_no_redirect_without_termination", "C18.c18_time_independent",
+                     "C18.c18_state_intact", "C18.validate_eq_ref", "C18.handle_eq", "C18.c18_provider_configured", "C18.uri_sound", "C18.uri_complete", "C18.hint_sound",
+                     "Query.unescape_escape", "Query.parse_encode"],
+        "cases": {"quick": 2500, "thorough": 20000},
+        "rule": "one end_session request per case against the real handlers of both routers (op.EndSession; webServer.endSessionHandler -> LegacyServer.EndSession) on the "
+                "reference storage, several requests per provider, static issuer or per-host issuer (two tenants sharing the key set), storage with / without "
+                "TerminateSessionFromRequest; id_token_hint in 14 kinds (absent, valid, expired, iat in future, wrong key, foreign issuer, no azp, unknown azp, garbage, "
+                "algorithm not allowed, payload swapped under a genuine signature, second published key, no kid, expired+wrong key), really signed; client_id in 4 kinds; "
+                "post_logout_redirect_uri in 10 kinds relative to the proven client's registration (exact, near-miss, glob match, glob near-miss, login redirect URI, "
+                "login-glob match, other client's URI, unregistered, unparseable); 6 states; 6 clients whose registrations (exact lists, opt-in, both glob lists) are "
+                "random from pools containing malformed globs and URIs with queries, fragments, bad escapes; thorough additionally enumerates the finite cross on a "
+                "canonical registration exhaustively (14 x 4 x 10 x 2 states x 2 routers x 2 storage capabilities x 2 issuer modes = 8960); "
+                "non-trivial = everything but the modal class; distinct = class x input",
+        "trivial_class": r"h1\.c0\.p1\.s0:redirect",
+        "exhaustive": {"thorough": True},
+        "trusted_base": COMMON_TB + ["net/url (Parse, Query, String) and path.Match are oracles: the harness reports what the real libraries answered for the strings of the case",
+                                     "the form decode (schema) and http.Redirect (Location = the string handed over, for absolute ASCII URIs) are taken as they are",
+                                     "which session the storage was asked to terminate is read from the reference storage (refstore.Terminated)",
+                                     "the query codec (QueryEscape/Unescape, Encode/ParseQuery on pairs) is hand-modelled on bytes and proved invertible; tied by comparing the model's "
+                                     "redirect string with the observed Location character by character",
+                                     "completeness (valid requests are accepted) assumes key selection is complete for genuine hints (HintComplete): C02 proves soundness of key selection only"],
+        "assumptions": ["c18_redirect_partial: the URL parser drops no query pairs of the target (otherwise F-C18a: c18_lossy_witness)",
+                        "a user agent splits a rendered URL back into the parts it was rendered from (net/url as oracle); the query part is proved (Query.parse_encode)"],
+    },
 }
